@@ -140,7 +140,7 @@ fn clone_key(k: &Vec<u8>) -> (r: Vec<u8>)
 
 // the entries of one restart interval: walking from its restart point with the key chain
 proof fn lemma_interval_step(b: Block, r: int, first: int, m: int)
-    requires b.wf(), 0 <= r < b.num_restarts, first == b.idx_of(b.rp(r)), 0 <= m, first + m < b.n(),
+    requires b.wf(), b.n() >= 1, 0 <= r < b.num_restarts, first == b.idx_of(b.rp(r)), 0 <= m, first + m < b.n(),
         r + 1 < b.num_restarts ==> b.off_at(first + m) < b.rp(r + 1),
     ensures
         b.rp(r) <= b.off_at(first + m),
@@ -166,7 +166,7 @@ proof fn lemma_interval_step(b: Block, r: int, first: int, m: int)
 }
 // the interval ends where the walk reaches the limit offset
 proof fn lemma_interval_done(b: Block, r: int, first: int, m: int)
-    requires b.wf(), 0 <= r < b.num_restarts, first == b.idx_of(b.rp(r)), 0 <= m, first + m <= b.n(),
+    requires b.wf(), b.n() >= 1, 0 <= r < b.num_restarts, first == b.idx_of(b.rp(r)), 0 <= m, first + m <= b.n(),
         m > 0 ==> first + m - 1 < interval_end(b, r),
         b.off_at(first + m) >= (if r + 1 < b.num_restarts { b.rp(r + 1) } else { b.bnd() }),
     ensures first + m == interval_end(b, r)
@@ -296,7 +296,7 @@ impl BlockCursor {
 //@ rewrite-re X12 `self\s*\.reverse_cache\s*\.as_ref\(\)\s*\.is_some_and\(\|cache\| cache\.restart_idx == restart_idx\)` => `cache_is(&self.reverse_cache, restart_idx)`
 //@ rewrite X12 `key = position_key.clone();` => `key = clone_key(position_key);`
 //@ pre <<
-        old(self).block.wf(), old(self).cache_ok(), restart_idx < old(self).block.num_restarts,
+        old(self).block.wf(), old(self).block.n() >= 1, old(self).cache_ok(), restart_idx < old(self).block.num_restarts,
 //@ >>
 //@ post <<
         final(self).block == old(self).block, final(self).position == old(self).position,
@@ -345,7 +345,7 @@ impl BlockCursor {
 //@ extract sst/src/block.rs | impl BlockCursor :: fn seek_restart
 //@ ret r
 //@ pre <<
-        old(self).block.wf(), old(self).cache_ok(),
+        old(self).block.wf(), old(self).block.n() >= 1, old(self).cache_ok(),
 //@ >>
 //@ post <<
         final(self).block == old(self).block, final(self).reverse_cache == old(self).reverse_cache,
@@ -404,7 +404,7 @@ proof fn lemma_keys_mono(b: Block, i: int, j: int)
 }
 // restart intervals start at increasing entries, so first keys do not decrease
 proof fn lemma_fk_mono(b: Block, r1: int, r2: int)
-    requires b.wf(), 0 <= r1 <= r2 < b.num_restarts
+    requires b.wf(), b.n() >= 1, 0 <= r1 <= r2 < b.num_restarts
     ensures lex_le(b.fk(r1), b.fk(r2)), b.idx_of(b.rp(r1)) <= b.idx_of(b.rp(r2))
 {
     reveal(Block::fk);
@@ -415,7 +415,7 @@ proof fn lemma_fk_mono(b: Block, r1: int, r2: int)
 }
 // once the first key of interval m is >= k, so is the first key of every later interval
 proof fn lemma_fk_above(b: Block, m: int, k: Seq<u8>)
-    requires b.wf(), 0 <= m < b.num_restarts, lex_le(k, b.fk(m))
+    requires b.wf(), b.n() >= 1, 0 <= m < b.num_restarts, lex_le(k, b.fk(m))
     ensures forall|r: int| m <= r < b.num_restarts ==> lex_le(k, #[trigger] b.fk(r))
 {
     assert forall|r: int| m <= r < b.num_restarts implies lex_le(k, #[trigger] b.fk(r)) by {
@@ -476,10 +476,11 @@ impl Cursor for BlockCursor {
         let ghost b = self.block;
         let ghost k = key@;
         let ghost ee = self.block.ents();
+        proof { lemma_empty_block(b); }
 //@ >>
 //@ loop 0 <<
             invariant
-                self.block == b, b.wf(), self.cache_ok(), self.pos_safe(), k == key@,
+                self.block == b, b.wf(), b.n() >= 1, self.cache_ok(), self.pos_safe(), k == key@,
                 left <= right < b.num_restarts,
                 left == 0 || lex_lt(b.fk(left as int), k),
                 forall|r: int| right < r < b.num_restarts ==> lex_le(k, #[trigger] b.fk(r)),
@@ -526,7 +527,7 @@ impl Cursor for BlockCursor {
 //@ >>
 //@ loop 1 <<
             invariant
-                self.wf(), self.ents() == ee, 0 <= self.pos() <= ee.len(), k == key@,
+                self.wf(), self.ents() == ee, 0 <= self.pos() <= ee.len(), k == key@, b.n() >= 1,
                 kref is None ==> self.pos() == ee.len(),
                 kref is Some ==> self.pos() < ee.len() && kref->Some_0.key@ == ee[self.pos()].key,
                 forall|i: int| 0 <= i < self.pos() ==> lex_lt(#[trigger] ee[i].key, k),
@@ -553,7 +554,7 @@ impl Cursor for BlockCursor {
                     assert(self.key_spec() == key_at(ee, self.pos()));
                 }
 //@ >>
-//@ before? `Ok(())` <<
+//@ before#2? `Ok(())` <<
         proof {
             self.lemma_cursor_laws();
             let p = self.pos();
@@ -615,6 +616,9 @@ impl Cursor for BlockCursor {
         let ghost j0 = self.idx();
         let ghost ri0: int = if self.position is Positioned { self.position->restart_idx as int } else { 0 };
         proof { if self.position is Positioned { let j = choose|j: int| self.at(j); self.lemma_at(j); } }
+//@ >>
+//@ before? `self.seek_restart(0)?;` <<
+            proof { lemma_empty_block(b); }
 //@ >>
 //@ after? `self.seek_restart(0)?;` <<
             proof {
